@@ -71,6 +71,11 @@ def run(chk, tier, seed, replay):
         users = user_idents(rq["item"])
         bound = set(o["bound"])
         for kind, first, full in o["refs"]:
+            if kind == "abs":
+                # `::core::..` resolves in every crate; `::derive_more::..` is the facade itself; anything else is recorded
+                if first not in ("core", "derive_more") and first not in users:
+                    bare.add((rq["key"].split("#")[0], kind, first))
+                continue
             if first in IGNORE_FIRST or first in users or first.startswith("__"):
                 continue
             if first in bound:
